@@ -4,8 +4,10 @@ Proof: generic theorems about `build` (first match), `addinstruction` and argume
 operand lists (Props/C06.lean) lifted to every constructor / Context method / package-level function
 of the CURRENT sources through kernel-checked obligations over the regenerated tables
 (Gen.FormsMeta, Gen.Forms_00..15, Gen.Ctors_00..07; Props/C06T/*, Props/C06Tables.lean).
-Correspondence: operand-class predicates exhaustively on a universe of ~450 operands x every operand
-type code; the three API layers called by name on matching and near-miss operand tuples.
+Correspondence: operand-class predicates exhaustively on a universe of ~470 operands x every operand
+type code; the three API layers called by name on matching and near-miss operand tuples (quick: all
+functions outside the V block + fixed-register families + a seeded V sample, rest swept), a purity
+pass over all suffix variants of each opcode, branch attributes against the mnemonic, a corpus.
 Tie "shipped tables = generator output": internal/cmd/avogen built from the working tree regenerates
 every z*.go target, byte-compared with the checked-in files."""
 import difflib, os, shutil, subprocess
@@ -18,8 +20,44 @@ SHARDS = [f"AvoVerif.Props.C06T.Ctors{i:02d}" for i in range(8)] + [f"AvoVerif.P
 PROPS = ["AvoVerif.Props.C06"] + SHARDS + ["AvoVerif.Props.C06Tables"]
 
 GENERATE_DIRS = ("x86", "build", "internal/inst")   # directories whose `//go:generate avogen …` lines are replayed
-EXPECTED_SHIPPED = {"x86/zoptab.go", "x86/zctors.go", "x86/zctors_test.go", "build/zinstructions.go",
-                    "build/zinstructions_test.go", "build/zmov.go", "internal/inst/ztable.go"}
+# the generated files the property speaks about (form table, constructors, Context methods / package-level functions,
+# the instruction database they are generated from) must be there and regenerate; every OTHER checked-in generated
+# file with a go:generate line (test files, zmov.go) is regenerated and compared when present, not required
+EXPECTED_SHIPPED = {"x86/zoptab.go", "x86/zctors.go", "build/zinstructions.go", "internal/inst/ztable.go"}
+
+# lower bounds on what a run must have judged (per differential run): a generator or selection change that silently
+# drops a stream shows up as a broken obligation instead of an empty, trivially green stream
+FLOORS_QUICK = {"match": 2500, "other-suffix-class": 300, "sibling": 100, "replace": 2500, "swap": 2000, "drop": 200, "extra": 200,
+                "replay": 3000, "pure-checks": 3000, "sweep": 1500, "accepted": 8000, "rejected": 5000, "layers-checks": 12000,
+                "doc-checks": 15000, "attr-checks": 8000, "attr-checks-branch-or-terminal": 200}
+FLOORS_THOROUGH = dict(FLOORS_QUICK, **{"match": 9000, "replace": 9000, "swap": 8000, "sweep": 0, "replay": 20000, "pure-checks": 20000,
+                                        "accepted": 30000, "rejected": 25000, "layers-checks": 60000, "doc-checks": 60000})
+
+
+def check_floors(ctx, tag):
+    st = ctx.coverage.get("input_distribution", {}).get("c06" + tag)
+    if not st:
+        ctx.obligation_failures.append(("c06 sample floors", f"no statistics for run c06{tag}"))
+        return
+    h = st.get("histogram", {})
+    low = []
+    for k, v in (FLOORS_QUICK if ctx.tier == "quick" else FLOORS_THOROUGH).items():
+        if h.get(k, 0) < v:
+            low.append(f"{k}: {h.get(k, 0)} < {v}")
+    if st.get("functions_called_nonV") != st.get("functions_total_nonV"):
+        low.append(f"functions outside the V block called: {st.get('functions_called_nonV')} of {st.get('functions_total_nonV')}")
+    if st.get("functions_called", 0) + st.get("functions_swept", 0) < st.get("functions_total", 1):
+        low.append(f"functions called at least once: {st.get('functions_called', 0)} + {st.get('functions_swept', 0)} swept of {st.get('functions_total')}")
+    if st.get("functions_called_with_fixed_class", 0) < 60 or st.get("doc_checks_on_functions_with_fixed_class", 0) < 1000:
+        low.append(f"functions with fixed-register/value classes: {st.get('functions_called_with_fixed_class')} called, "
+                   f"{st.get('doc_checks_on_functions_with_fixed_class')} judged calls")
+    if st.get("class_checks", 0) < 15000 or st.get("class_checks_true", 0) < 600 or st.get("suffix_class_codes", 0) < 8:
+        low.append(f"class stream: {st.get('class_checks')} checks, {st.get('class_checks_true')} true, {st.get('suffix_class_codes')} suffix class codes")
+    for k in ("missing-layer", "unrecognised-ctor-body", "bad-range", "no-sample"):
+        if h.get(k, 0):
+            low.append(f"{k}: {h[k]} functions could not be exercised")
+    if low:
+        ctx.obligation_failures.append((f"c06{tag} sample floors", "; ".join(low)))
 
 
 def regenerate_tables(ctx):
@@ -107,41 +145,98 @@ def run(ctx):
 
     nontrivial = lambda req, resp: not (req.startswith("class ") and resp == "0") and not req.startswith("addi") \
         and not req.startswith("accept-names")
+    # hand-picked / minimised call sequences first (corpus/C06/*.txt), each file replayed in order in one process
+    ctx.run_corpus("c06", nontrivial=nontrivial, timeout=600)
+    # quick: every function outside the AVX `V…` block + every family with a fixed-register/value class + 600 seeded
+    # functions of the V block (whole families), the rest swept; thorough: all
     n = 600 if ctx.tier == "quick" else 100000
     ctx.differential("c06", n, nontrivial=nontrivial, timeout=3000)
+    check_floors(ctx, "")
     if ctx.tier == "thorough":
         # all functions again with other operand samples / near misses
         base = ctx.seed
         for k in (1, 2):
             ctx.seed = base * 1000003 + k
             ctx.differential("c06", n, tag=f"-s{k + 1}", nontrivial=nontrivial, timeout=3000)
+            check_floors(ctx, f"-s{k + 1}")
         ctx.seed = base
     regenerate_tables(ctx)
 
     ctx.coverage["rule"] = (
-        "(i) operand-class predicates: every operand of a universe of ~450 (all physical registers of reg.Families, the "
-        "exported wrapped registers and converted views, virtual registers of every kind/width and ill-sized ones, ~150 "
-        "memory shapes with nil / GP / pseudo / vector / mask base and index, every constant type at boundary values, "
-        "Rel at the int8/int32 limits, LabelRef, nil, *Mem, a foreign Op) x every operand type code 0..max+2 through "
-        "x86.VerifMatch (the generated oprndtype.Match switch) against the hand model — exhaustive over that universe. "
+        "(0) corpus/C06/*.txt: hand-picked call sequences (`call NAME operands…`) replayed in file order in one process "
+        "through all three layers (purity across suffix variants, every kind of JMP operand, first/last opcode, rejection "
+        "on a context with history, fixed-register classes and their siblings, wrong operand counts). "
+        "(i) operand-class predicates: every operand of a universe of ~470 (all physical registers of reg.Families, the "
+        "exported wrapped registers and converted views, virtual registers of every kind/width incl. identifiers above 7 "
+        "and ill-sized ones, ~170 memory shapes with nil / GP / pseudo / vector / mask base and index, symbol without base, "
+        "RSP / 8- / 16-bit / X16+ index registers, every constant type at boundary values, Rel at the int8/int32 limits, "
+        "LabelRef, nil, *Mem, a foreign Op) x every operand type code 0..max+2 through x86.VerifMatch (the generated "
+        "oprndtype.Match switch) against the hand model — exhaustive over that universe; `sfxset`: the accepted suffix "
+        "lists of every suffix class code 0..max+2 (sffxscls.SuffixesSet + sffxs.Strings) against the model's table. "
         "(ii) x86 constructor, Context method and package-level function called BY NAME (closures generated from /repo by "
-        "harness/cmd/genctors) for quick: 600 seeded functions + every function the Go-side pre-check finds suspicious, "
-        "thorough: all; per function one matching operand sample per form admitted by its suffixes, samples of forms of "
-        "other suffix classes, and per sample 2-3 near misses (operand replaced by a random universe operand, two operands "
-        "swapped, operand dropped/added for variadic functions); `instr` = exact model comparison of the constructor "
-        "(opcode, suffixes, operands, Inputs/Outputs incl. implicit registers, flags, ISA) on the opcode's form rows "
-        "carried inline, `accept-doc` = the property on the function's own doc comment, `accept-layers` = three layers "
-        "equal + node/error deltas, `addi` = addinstruction model; non-trivial = everything except class lines answering 0, "
-        "addi and accept-names lines. (iii) avogen built from the working tree replays every `//go:generate avogen` line of x86/, build/, internal/inst/ whose output is checked in (7 files, incl. internal/inst/ztable.go bootstrapped from internal/data).")
+        "harness/cmd/genctors).  SELECTION quick: every function outside the AVX/AVX-512 `V…` block (672: MOVQ, ADDQ, "
+        "JMP, RET, XORQ, … always), every family with a fixed-register/value class (al cl ax eax rax xmm0 imm2u imm16 1 3), "
+        "every function the Go-side pre-check finds suspicious, 600 seeded functions of the V block (whole families: all "
+        "suffix variants of an opcode together); every function NOT selected is swept (first and last admitted form, "
+        "constructor only, judged by accept-doc/accept-attrs) so that every opcode and suffix code passes through "
+        "opc.Forms/opc.String/sffxs.Strings; thorough: all functions, three seeds. "
+        "FIRST PASS per function: one matching operand sample per form admitted by its suffixes, samples of forms of other "
+        "suffix classes, per sample the same-width sibling of every fixed-register/value operand and 2-3 near misses "
+        "(operand replaced by a random universe operand, two operands swapped; operand dropped/added for variadic functions "
+        "in BOTH tiers).  SECOND PASS (purity): per family up to 4 (thorough 10) operand lists that were accepted, preferring "
+        "those most members accept, given to EVERY member of the family in a shuffled order and back in reverse. "
+        "JUDGEMENTS: `instr` = exact model comparison of the constructor (opcode, suffixes, operands, Inputs/Outputs in "
+        "order incl. implicit registers — order and multiplicity are observable: ir.InputRegisters' cancelling rule reads "
+        "the first two — flags, ISA) on the opcode's form rows carried inline; `accept-doc` = the property on the "
+        "function's own doc comment; `accept-layers` = three layers equal + node/error deltas on contexts holding 0-4 "
+        "instructions and 0-3 earlier errors; `addi` = addinstruction model; `accept-attrs` = terminal/branch/conditional "
+        "flags of every accepted instruction against the MNEMONIC (J… = branch, conditional unless JMP; RET terminal; "
+        "nothing else), independent of the table's feature column and of the generator; `accept-pure` = a repeated call "
+        "(same function, same operands) returns what the first call in the process returned. "
+        "Form rows, ISA lists, opcode strings are tabulated from the COMPILED table (x86.VerifForms; features/actions in the "
+        "hook's fixed layout), the source literal is only cross-checked when its shape is recognised. "
+        "non-trivial = everything except class lines answering 0, addi and accept-names lines. "
+        "FLOORS: a run that judges fewer cases of a stream than its floor (FLOORS_QUICK/THOROUGH in vlib/props/c06.py), "
+        "does not call every non-V function, or leaves a function uncalled is a broken obligation. "
+        "(iii) avogen built from the working tree replays every `//go:generate avogen` line of x86/, build/, internal/inst/ "
+        "whose output is checked in (zoptab, zctors, zinstructions, ztable required; test files and zmov when present).")
+    ctx.coverage["statement_scope"] = (
+        "C06_tables: for every constructor row of every shard (every_opcode_has_ctor: the rows cover the whole opcode enum) "
+        "the Context method and package-level function of the same name forward the operands in order to the same "
+        "build(opc.Forms(), suffixes, ops); accepted iff a documentation row matches; on acceptance opcode, suffixes, "
+        "operands, one node, no error, no panic (build_no_panic) and terminal/branch/conditional = what the mnemonic says "
+        "(forms_feat + build_attrs); on rejection one error, no node.  Read/write sets and ISA of the result are those of "
+        "the first matching row (build_first); that the rows' actions/ISA are the instruction database's is tied by "
+        "regeneration (iii) only — a generator and its output changed together in the action or ISA column are outside "
+        "this check (the CPU-level meaning of actions is C04's subject).")
     ctx.assumptions += [
         "a Context with an active function (Context.Function called): Instruction() appends to it",
-        "identifiers in the generated files denote what the Go compiler resolves them to (import names of x86/operand/ir "
-        "checked by the translator; constant identifiers unique per package)",
+        "identifiers in the generated files denote what the Go compiler resolves them to (import names of x86/operand "
+        "checked by the translator; constant identifiers unique per package); the translator reports the builder "
+        "function, its suffix type, the Forms method, the addinstruction helper, the method receiver and the package-level "
+        "context under canonical names after resolving them structurally (signature / initialiser), so renaming them is harmless",
         "internal/inst/ztable.go is regenerated from the in-tree copies of the external databases under internal/data "
         "(Opcodes XML, Go arch table); those files themselves are external inputs and are taken as given",
         "forms with more operands than maxoperands (index panic in form.match) do not occur (forms_wf)",
+        "the body of Context.addinstruction is not translated: it is modelled (Model/Instr.addinstruction) and compared "
+        "behaviourally on every call (accept-layers + addi: node/error deltas on the context the method was called on)",
+        "the bodies of the table accessors (opc.Forms, opc.String, sffxs.Strings, sffxscls.SuffixesSet, isas.List: "
+        "`None < x && x < max`) are modelled, and compared behaviourally for EVERY code: Forms through a by-name call of "
+        "every constructor, String and List through x86.VerifForms on every row, SuffixesSet/Strings through `sfxset` lines",
+        "implicit register VALUES come from the compiled package (x86.VerifImplReg); impl_regs_known ties them to rows of "
+        "the compiled register table, fixed_regs ties the six fixed-register classes; that implregEAX denotes EAX rather "
+        "than another register of the table is tied only by the `instr` comparison against reg.<Var> of the source switch",
+        "branch attributes: the specification `J… = jump, RET = return` is x86/Go-assembler knowledge written in "
+        "Model/Instr.specFeat; an instruction database that gained a non-J branch mnemonic (LOOP, XBEGIN with a rel "
+        "operand) would have to extend it",
     ]
     ctx.trusted += [
         "harness/cmd/genctors (wrapper generator: one-line closures `x86.NAME(o[0], …)`), go/ast translators of "
-        "c06_optab_ast.go / c06_ctors_ast.go (AST rows cross-checked against the compiled table via x86.VerifForms on every run)",
+        "c06_optab_ast.go (enums, small tables, opcformstable ranges) / c06_ctors_ast.go (constructor and wrapper bodies: "
+        "single-assignment locals inlined); form rows come from the compiled table via x86.VerifForms",
+        "the operand universe is fixed per run (listed in the rule): class predicates are compared on it exhaustively, "
+        "not on all operands; the Lean statement quantifies over all operand lists for the MODEL predicates",
+        "acceptors of Drv/C06.lean: accept-attrs is Model/Instr.attrsOK (attrsOK_sound/complete); accept-doc evaluates "
+        "tupleMatches over the parsed documentation rows (the statement of documented_iff_matches; its string parsing "
+        "is glue); accept-layers / accept-pure / accept-names compare tokens for equality (glue)",
     ]
